@@ -117,7 +117,19 @@ var addCmd = &cobra.Command{
 				if err != nil {
 					return fmt.Errorf("fail to get file path under directory: %w", err)
 				}
+				curPath, err := os.Getwd()
+				if err != nil {
+					return err
+				}
 				for _, filePath := range filePaths {
+					// files inside Goit's own directory and ignored files are never staged
+					relPath, err := filepath.Rel(curPath, filePath)
+					if err != nil {
+						return err
+					}
+					if client.Ignore.IsIncluded(strings.ReplaceAll(relPath, `\`, "/"), client.Idx) {
+						continue
+					}
 					if err := add(client.RootGoitPath, filePath, client.Idx); err != nil {
 						return err
 					}
